@@ -99,10 +99,10 @@ def run(ctx):
         seen[canon(v["forms"])] = v
     vecs = [seen[k] for k in sorted(seen)]
     # ---- replay, small N: full comparison + R-space at every probe
-    for via_apply in (False, True):
-        part = [v for v in vecs if bool(v["tag"][2]) == via_apply]
+    for via_apply in (0, 1, 2):
+        part = [v for v in vecs if v["tag"][2] == via_apply]
         jobs = [S.program_job(i, v["forms"]) for i, v in enumerate(part)]
-        results = run_jobs(jobs, ctx.dir, tag="small-%s" % ("apply" if via_apply else "direct"), timeout=2400)
+        results = run_jobs(jobs, ctx.dir, tag="small-%d" % via_apply, timeout=2400)
         for v, res in zip(part, results):
             if res.get("skipped"):
                 continue
@@ -134,15 +134,15 @@ def run(ctx):
     d01 = [v for v in vecs if len(v["tag"][3]) <= 1 and v["tag"][4] == 3]
     d2 = [v for v in vecs if len(v["tag"][3]) == 2 and v["tag"][4] == 3]
     sample = d01 + rng.sample(d2, min(len(d2), 300 if tier == "quick" else 2892))
-    for via_apply in (False, True):
-        part = [v for v in sample if bool(v["tag"][2]) == via_apply]
+    for via_apply in (0, 1, 2):
+        part = [v for v in sample if v["tag"][2] == via_apply]
         jobs = []
         for i, v in enumerate(part):
             forms = with_count(v["forms"], 3, big)
             steps = [{"op": "new", "i": 0}, {"op": "probecfg", "every": big // 8}]
             steps += [{"op": "eval", "i": 0, "text": S.render(f)} for f in forms]
             jobs.append({"id": i, "kind": "session", "steps": steps})
-        results = run_jobs(jobs, ctx.dir, tag="large-%s" % ("apply" if via_apply else "direct"), timeout=3000, per_job_timeout=120)
+        results = run_jobs(jobs, ctx.dir, tag="large-%d" % via_apply, timeout=3000, per_job_timeout=120)
         for v, res in zip(part, results):
             if res.get("skipped"):
                 ctx.cov["skipped_after_crashes"] = ctx.cov.get("skipped_after_crashes", 0) + 1
